@@ -220,6 +220,7 @@ func (l *SeqContext1) encode() []byte {
 	}
 	coverageOffset := total
 	total += l.Cov.EncodeLen()
+	checkOffset16(coverageOffset)
 
 	buf := make([]byte, 0, total)
 	buf = append(buf,
@@ -628,6 +629,7 @@ func (l *SeqContext3) encode() []byte {
 	total := 6 + 2*len(l.Input) + 4*len(l.Actions)
 	coverageOffsets := make([]uint16, glyphCount)
 	for i, cov := range l.Input {
+		checkOffset16(total)
 		coverageOffsets[i] = uint16(total)
 		total += cov.ToTable().EncodeLen()
 	}
@@ -886,9 +888,12 @@ func (l *ChainedSeqContext1) encode() []byte {
 		if rules == nil {
 			continue
 		}
+		checkOffset16(total)
 		chainedSeqRuleSetOffsets[i] = uint16(total)
 		total += 2 + 2*len(rules)
 		for _, rule := range rules {
+			// rule offsets are relative to the start of the rule set
+			checkOffset16(total - int(chainedSeqRuleSetOffsets[i]))
 			total += 2 + 2*len(rule.Backtrack)
 			total += 2 + 2*len(rule.Input)
 			total += 2 + 2*len(rule.Lookahead)
@@ -1501,18 +1506,21 @@ func (l *ChainedSeqContext3) encode() []byte {
 	total += 4 * len(l.Actions)
 	backtrackCoverageOffsets := make([]uint16, backtrackGlyphCount)
 	for i, set := range l.Backtrack {
+		checkOffset16(total)
 		backtrackCoverageOffsets[i] = uint16(total)
 		cov := set.ToTable()
 		total += cov.EncodeLen()
 	}
 	inputCoverageOffsets := make([]uint16, inputGlyphCount)
 	for i, set := range l.Input {
+		checkOffset16(total)
 		inputCoverageOffsets[i] = uint16(total)
 		cov := set.ToTable()
 		total += cov.EncodeLen()
 	}
 	lookaheadCoverageOffsets := make([]uint16, lookaheadGlyphCount)
 	for i, set := range l.Lookahead {
+		checkOffset16(total)
 		lookaheadCoverageOffsets[i] = uint16(total)
 		cov := set.ToTable()
 		total += cov.EncodeLen()
